@@ -113,3 +113,24 @@ META["C18"] = dict(
     text="Theorems C18_once_per_tick, C18_stop_quiescent, C18_no_goroutine_left, C18_schedule_progress: in every execution the function is never invoked before Start and at most once per tick delivered by the active schedule's ticker; once Stop has returned no step starts or ends the function, ever; Stop returns only after the goroutine exited and after cancellation its exit is always enabled; the timer moves to the next schedule (last one stays) and Restart returns to the first. Refuted/C18_pinned.v proves the pinned code invokes the function after Stop returned.",
     note="Trusted: Coq kernel; channel/select/timer semantics as modelled (timers never early, select may take any ready case); premise first StartDelay < 1h placeholder; the trace checker's inclusion of the model's traces is by construction, not proved; wall-clock accuracy is the runtime's (one-sided checks only); extraction + driver; harness.",
 )
+
+META["C02"] = dict(
+    design_ref="DESIGN.md section 5, C02",
+    technique="Coq proofs of inductive invariants over a small-step model of the trigger pool (ticker, N workers, stopper, limit path, cancel; one step per atomic/lock/cond operation) for every schedule, tick list and worker count: conservation, lock discipline, nothing accepted after a halt, silent limit; machine-checked refutation of the pinned pool in two histories; oracle correspondence (extracted predicate) on histories driven on the real TriggerPool",
+    text="Theorems C02_conservation_inv, C02_conservation, C02_limit_silent: in every reachable state requested = started + dropped + being-recorded + silently discarded + in hand + pending, hence at the end requested = started + dropped + discarded with nothing pending; once the limit path halted the pool no swap yields a drop, no tick is accepted, and jobs superseded/drained when all ids were already handed out are discarded silently. Refuted/C02_pinned.v proves both pinned races (limit gap: spurious drops; late tick: lost requests). Four defects of the real pool were repaired (fix: commits).",
+    note="Trusted: Coq kernel; the step granularity and the semantics of sync/atomic, Mutex and Cond as modelled; real schedules are sampled by stress (narrow windows such as a tick between two instructions of the limit path are covered by the theorem, not reliably by the harness); extraction + driver; harness.",
+)
+
+META["C03"] = dict(
+    design_ref="DESIGN.md section 5, C03",
+    technique="Coq proof of an id invariant (issued ids are k..1; started + in-transit ids are a permutation of them; k <= limit; k = limit once the limit was exceeded) over the same pool model for every schedule; oracle correspondence on ids observed in pool histories and whole runs of every trigger mode incl. multi-stage config files",
+    text="Theorems C03_ids_inv, C03_exact: every invocation observes a distinct id, the ids observed at the end are exactly 1..k for the k started iterations, k <= N, and k = N whenever the limit was ever exceeded (the trigger kept requesting until the limit stopped it). Observed ids of real runs (all modes, limits 1-400, concurrency 1-100, file stages) are judged by the extracted predicate.",
+    note="Trusted: Coq kernel; atomic fetch-and-add semantics; the continuous pool and the per-stage pools share the same PoolManager counter (observed in whole runs, not separately modelled); extraction + driver; harness.",
+)
+
+META["C04"] = dict(
+    design_ref="DESIGN.md section 5, C04",
+    technique="Coq proof that the number of workers in a body never exceeds the pool size in any reachable state (worker i owns handle i by construction); instance witnesses (computation) that all workers can be busy; oracle correspondence with an in-flight high-water mark, a live handle set and a rendezvous in real runs of the five rate/users triggers",
+    text="Theorem C04_bound: in every reachable state in_flight <= concurrency and the pool keeps exactly `concurrency` workers. C04_all_usable_instances exhibits schedules with all workers busy for pools of 1-4 workers (the general existence statement is observed on the real pools by rendezvous bodies that only return when `concurrency` of them overlap).",
+    note="Trusted: Coq kernel; handle distinctness is structural in the model and observed (pointer set) in the code; the 'all workers usable' direction is proved for instances and otherwise exploration-level; extraction + driver; harness.",
+)
